@@ -9,7 +9,9 @@ import (
 
 	"metacontroller/pkg/controller/common"
 	v1 "metacontroller/pkg/controller/composite/api/v1"
+	"metacontroller/pkg/logging"
 	"metacontroller/pkg/zzverif/env"
+	"metacontroller/pkg/zzverif/logsink"
 	rt "metacontroller/pkg/zzverif/rt"
 )
 
@@ -89,6 +91,15 @@ func verifC01(ssa bool) {
 	names := []string{"a"}
 	if rt.Bool("want-b") {
 		names = append(names, "b")
+	}
+	// verbosity 5 switches on code of its own in the update path (the diff that
+	// is rendered for the log): convergence and quiescence hold at any verbosity
+	// (quick tier: only explored without the unrelated object z)
+	if (rt.Tier() == 1 || roleZ == 0) && rt.Bool("log-verbosity-5") {
+		rt.Cover("verbose-logging")
+		saved := logging.Logger
+		defer func() { logging.Logger = saved }()
+		logging.Logger = logsink.Verbose()
 	}
 	hook := verifConstHook(nil, map[string]interface{}{"phase": "ok"}, false)
 	// the hook may echo the annotations of the observed child it is shown
